@@ -188,3 +188,64 @@ func init() {
 		},
 	})
 }
+
+// postProcessRecoversMoved: in moveOutFile, is the "recorded path does not
+// exist" branch (`os.IsNotExist(err)` after `os.Lstat(filePath)`) more than
+// "report null"?  true = it first tries to recover a file that an interrupted
+// earlier post-process already moved to outs/ (any call other than `w.Write`
+// in that branch); false = the branch only writes null.
+func init() {
+	addFact(fact{
+		name:   "postProcessRecoversMoved",
+		leanTy: "Bool",
+		deflt:  "true",
+		extract: func(repo string) (string, interface{}, error) {
+			_, f, err := parseFile(repo, "martian/core/post_process.go")
+			if err != nil {
+				return "", nil, err
+			}
+			fd := findFunc(f, "moveOutFile")
+			if fd == nil {
+				return "", nil, fmt.Errorf("moveOutFile not found")
+			}
+			var branch *ast.BlockStmt
+			ast.Inspect(fd.Body, func(n ast.Node) bool {
+				ifs, ok := n.(*ast.IfStmt)
+				if !ok || branch != nil {
+					return true
+				}
+				isNotExist := false
+				ast.Inspect(ifs.Cond, func(m ast.Node) bool {
+					if s, ok := m.(*ast.SelectorExpr); ok && s.Sel.Name == "IsNotExist" {
+						isNotExist = true
+					}
+					return true
+				})
+				if isNotExist {
+					branch = ifs.Body
+					return false
+				}
+				return true
+			})
+			if branch == nil {
+				return "", nil, fmt.Errorf("moveOutFile: os.IsNotExist branch not found")
+			}
+			other := false
+			ast.Inspect(branch, func(n ast.Node) bool {
+				if call, ok := n.(*ast.CallExpr); ok {
+					if s, ok := call.Fun.(*ast.SelectorExpr); ok {
+						if x, ok := s.X.(*ast.Ident); ok && x.Name == "w" {
+							return true
+						}
+					}
+					other = true
+				}
+				return true
+			})
+			if other {
+				return "true", true, nil
+			}
+			return "false", false, nil
+		},
+	})
+}
